@@ -54,6 +54,8 @@ def classify_return(p: Path, op: str, sel: str) -> Placement:
     attr = call_attr(v)
     if attr == "append_binary":
         return Placement("JOIN", p, {})
+    if attr == "_append_unary_to_select" and isinstance(v.func, ast.Attribute) and src(v.func.value) == "self" and len(v.args) == 2 and src(v.args[1]) != sel:
+        return Placement("FORWARD", p, {"to": src(v.args[1])[:40]})
     if attr == "reapply_skip" and isinstance(v.func, ast.Attribute) and src(v.func.value) == sel:
         kws = {k.arg: k.value for k in v.keywords if k.arg}
         if "skip_to" in kws:
@@ -77,6 +79,14 @@ def classify_return(p: Path, op: str, sel: str) -> Placement:
         if isinstance(b, ast.Call) and call_attr(b) == "reapply_skip" and isinstance(b.func, ast.Attribute) and src(b.func.value) == sel:
             inner = {k.arg: src(k.value) for k in b.keywords if k.arg}
             return Placement("NEST_HOIST", p, {"subquery": inner, **kws})
+        # a subquery rebuilt from the skip target with some of the Select's slots: every slot not passed on is dropped
+        if isinstance(b, ast.Call) and call_attr(b) == "apply_skip" and (b.args or kw(b, "skip_to") is not None):
+            b0 = b.args[0] if b.args else kw(b, "skip_to")
+            if src(b0) == f"{sel}.skip_to":
+                given = {k.arg: src(k.value) for k in b.keywords if k.arg and k.arg != "skip_to"}
+                inner = {slot: given.get(slot, "None") for slot in ("sort", "projection", "deduplication", "slice")}
+                inner = {slot: v for slot, v in inner.items() if v != f"{sel}.{slot}"}
+                return Placement("NEST_HOIST", p, {"subquery": inner, **kws})
         # the operation applied to a re-slotted copy of the Select, nested under a new one
         if isinstance(b, ast.Call) and call_attr(b) == "_finish_apply" and b.args:
             x = b.args[0]
@@ -407,6 +417,35 @@ def r_slice_keeps_its_sort(ctx: Ctx, rule: str) -> None:
             )
         else:
             run.ok(rule, inst, {"outcomes": [repr(o) for o in outs]})
+
+
+def r_subquery_keeps_its_slots(ctx: Ctx, rule: str) -> None:
+    """What a Select already holds stays in the subquery it becomes (or is re-attached outside, for sort and slice)."""
+    run = ctx.run
+    run.rule(
+        rule,
+        "when a Select is nested as a subquery under a new one, every slot it holds goes with it: a projection under a "
+        "DISTINCT stays inside (DISTINCT over other columns keeps other rows), a deduplication stays inside, and a Select "
+        "is never unwrapped by forwarding the operation to the Select it wraps (the wrapper is what lets a sliced or "
+        "sorted query stand inside a UNION or a join)",
+        expected_min=8,
+    )
+    for f, c, state, outs, raises in placements(ctx):
+        inst = f"{c.name}@{_state_label(state)}"
+        bad, why = None, ""
+        for o in outs:
+            if o.kind == "FORWARD":
+                bad, why = o, f"the operation is forwarded to `{o.detail.get('to')}` and the Select around it is dropped: where that Select was a UNION operand or join operand wrapper, the inner LIMIT / ORDER BY now stands directly in the compound statement, which the database rejects"
+            elif o.kind == "NEST_HOIST":
+                sub = o.detail.get("subquery", {})
+                if state["has_projection"] and state["has_deduplication"] and sub.get("projection") in ("None",):
+                    bad, why = o, "the subquery keeps the DISTINCT but loses the projection it was taken over: duplicates are now judged on all columns of the skip target, so rows that the original relation merged come back"
+                elif state["has_deduplication"] and sub.get("deduplication") in ("None",) and o.detail.get("deduplication") in (None, "None"):
+                    bad, why = o, "the Select's deduplication is dropped on the way into the subquery and not re-applied outside"
+        if bad is not None:
+            run.fail(rule, inst, f"{bad!r}: {why}", fi=f, node=bad.path.node, details=describe(bad.path), facts={"state": state})
+        else:
+            run.ok(rule, inst)
 
 
 def r08_2_compound_guard(ctx: Ctx, rule: str = "R08.2") -> None:
